@@ -2,6 +2,7 @@ package bsim
 
 import (
 	"fmt"
+	"regexp"
 	"sort"
 	"strings"
 
@@ -20,6 +21,8 @@ type Violation struct {
 	Seed     uint64   `json:"seed"`
 	Index    int      `json:"index"`
 	Expect   []string `json:"expect,omitempty"` // digests of the results seen when the violation was found
+	Gen      int      `json:"gen,omitempty"`    // C19: generation (2 = tool rebuilt with the regenerated file)
+	Ref      string   `json:"ref,omitempty"`    // C19 generation 2: the generation-1 output (version line stripped)
 }
 
 func digest(r *Result) string {
@@ -108,6 +111,9 @@ func (s *Stats) note(w *World, r *Result) {
 	}
 	if r.Exit == -2 {
 		s.Hangs++
+	}
+	if len(r.Stray) > 0 {
+		s.Probes["runs-leaving-stray-files"]++
 	}
 }
 
@@ -212,9 +218,12 @@ func CheckC08(t Target, src *choice.Src, st *Stats) *Violation {
 				"exit": base.Exit, "twins": []string{"map", "map", "listing", "env", "cwd", "clock", "keyorder"}, "first_file": firstLines(w, 14)})
 		}
 	}
-	if v := monitorC12(w, base); v != nil {
-		v.Choices = genDraws
-		return v
+	if monitorC12(w, base) != nil {
+		// a crash is C12's to report; twins of a crashed run mean nothing
+		if st != nil {
+			st.Probes["c12-monitor-fired"]++
+		}
+		return nil
 	}
 	tw, dims := twinsC08(src, w, base.EnvReads)
 	for i, t2 := range tw {
@@ -225,6 +234,10 @@ func CheckC08(t Target, src *choice.Src, st *Stats) *Violation {
 		}
 		if d := diff(base, r2, false); len(d) > 0 {
 			sig, detail := attribute(t, w, t2, base, dims[i], d)
+			if usesDotSelector(w) {
+				// trigger is part of the signature: goimports' environment scan for an unresolved selector base
+				sig = "dotpkg|" + sig
+			}
 			return &Violation{Property: "C08", Sig: sig, Detail: detail, Worlds: []*World{w, t2}, Mode: "twin-all",
 				Expect: []string{digest(base), digest(r2)}, Choices: genDraws}
 		}
@@ -242,6 +255,18 @@ func CheckC08(t Target, src *choice.Src, st *Stats) *Violation {
 			Worlds: []*World{w, kw}, Mode: "twin-out", Expect: []string{digest(base), digest(rk)}, Choices: genDraws}
 	}
 	return nil
+}
+
+var reDotSel = regexp.MustCompile(`\\"\.\\"\.[A-Za-z_][A-Za-z0-9_]*\.[A-Za-z_]`)
+
+// usesDotSelector: some value refers to a field of a variable of the current package (".".Var.Field).
+func usesDotSelector(w *World) bool {
+	for _, f := range w.Files {
+		if reDotSel.MatchString(f.Content) {
+			return true
+		}
+	}
+	return false
 }
 
 func fileNames(w *World) []string {
